@@ -131,13 +131,13 @@ C09_AbstractionInv == phase \in {"step", "done"} => SI!IndInv
 C09_AbstractionStep == [][phase = "step" => SI!Next]_vars
 
 (* ---- export of small tables with their complete allowed sets ---------------- *)
-SmallEntries == [interval : {1, 2}, weight : {0, 1, 3}, min : {0, 1}]
+SmallEntries == [interval : {1, 2, 3}, weight : {0, 1, 3}, min : {0, 1}]     \* (2 and 3: intervals that are not multiples of each other)
 SmallTables == {<<[name |-> "a", e |-> x]>> : x \in SmallEntries}
                \cup {<<[name |-> "a", e |-> x], [name |-> "b", e |-> y]>> : x \in SmallEntries, y \in SmallEntries}
 SeqsOver(S, k) == IF S = {} THEN {<<>>} ELSE [1..k -> S]
 AllowedSet(t, c, s) == {q \in (SeqsOver(DueNames(t, s), c) \cup {<<>>}) : Allowed(t, c, s, q)}
 SmallCases == {[table |-> t, cycles |-> c, step |-> s, allowed |-> AllowedSet(t, c, s)]
-               : <<t, c, s>> \in {<<t2, c2, s2>> \in SmallTables \X {1, 2, 3} \X {0, 1, 2} :
+               : <<t, c, s>> \in {<<t2, c2, s2>> \in SmallTables \X {1, 2, 3} \X {0, 1, 2, 3} :
                                      SumMin(t2) <= c2 /\ Schedulable(t2, c2, s2)}}
 Export ==
     IF TLCGet("stats").distinct < 0 \/ OutFile = "" THEN TRUE
